@@ -312,6 +312,16 @@ def r19_8(rep, M, rid):
         rep.violation(rid, "Classifier.__init__: radii", "the documented `radii` option is not stored", M.where(CLS + ".__init__"))
         return
     attr = "self." + stored[0]
+    for q2, d2 in M.functions().items():
+        if M.parent.get(q2) != CLS or q2.endswith(".__init__"):
+            continue
+        for a2 in ast.walk(d2):
+            if isinstance(a2, (ast.Assign, ast.AugAssign)):
+                for t2 in (a2.targets if isinstance(a2, ast.Assign) else [a2.target]):
+                    if norm(t2) == attr:
+                        rep.violation(rid, f"{q2.split('.')[-1]}: `{norm(a2)[:60]}`", f"the configured option {attr} is overwritten during a call (here with per-atom values of "
+                                      "the structure being classified): a classifier reused for a second structure resolves *its* radii from the first structure's array "
+                                      "(wrong radii for equal atom counts, a broadcast error otherwise), while a preset name given to a fresh object behaves differently", M.where(q2, a2))
     n = 0
     for callee in (GEO + ".get_distances", GEO + ".get_dimensionality"):
         for c in M.calls_to(FQ, callee):
@@ -374,6 +384,10 @@ def run(rep, ctx):
                 else:
                     rep.violation("R19.6", f"get_clusters: `{par}` of {callee.split('.')[-2]}", f"`{norm(a) if a is not None else None}` is not (only) the "
                                   "result of get_distances computed in this call with this call's radii", M.where(GC, c))
+    rep.rule("R19.9", "no function keeps results in module-level state or functools caches (answers do not depend on what the process analysed before)")
+    with rep.guard("R19.9"):
+        from .. import symrules as _SRms
+        _SRms.module_state(rep, ctx.model, "R19.9")
     rep.floor("R19.1", 2)
     rep.floor("R19.2", 3)
     rep.floor("R19.4", 6)
